@@ -121,7 +121,7 @@ def run(ctx):
                 break
             before = [(lbl, o, snap(o)) for (lbl, o) in live[-400:]]
             acc_before = (list(tr.steps), list(tr.docs), list(tr.mapping.maps), list(tr.mapping.mirror or []))
-            kind = rng.choice(["transform-op", "transform-op", "query", "step", "json", "slice-replace", "mapping", "dom"])
+            kind = rng.choice(["transform-op", "transform-op", "query", "step", "json", "slice-replace", "mapping", "dom", "aimed"])
             desc = {"kind": kind}
             new_objs = []
             try:
@@ -219,6 +219,50 @@ def run(ctx):
                     mp.append_mapping_inverted(tr.mapping)
                     mp.slice(0, 1).map(rng.randint(0, 5))
                     tr.mapping.map(rng.randint(0, 5)), tr.mapping.map_result(rng.randint(0, 5), -1)
+                elif kind == "aimed":
+                    rng_a = __import__("random").Random(ctx.seed * 7927 + si * 101 + step_no)     # private random stream
+                    allnodes = []
+                    for d_ in docs + [tr.doc]:
+                        d_.descendants(lambda n, p, par, i, d_=d_: allnodes.append((d_, n, p)) or True)
+                    if rng_a.random() < 0.5:
+                        # marked inline content pasted, through the Fitter, into a parent that restricts marks
+                        desc.update({"op": "paste marked content into a mark-restricted parent"})
+                        targets = [(d_, n, p) for (d_, n, p) in allnodes if n.is_textblock and n.type.mark_set is not None]
+                        sources = [(d_, n, p) for (d_, n, p) in allnodes if n.is_textblock and n.child_count and
+                                   any(c.marks for c in n.content.content)]
+                        if targets and sources:
+                            (dt_, nt, pt), (ds, ns, ps) = rng_a.choice(targets), rng_a.choice(sources)
+                            sl = ds.slice(ps + 1, ps + 1 + ns.content.size)
+                            live.append(("pasted slice", sl))
+                            before.append(("pasted slice", sl, snap(sl)))
+                            before.append(("source of the pasted slice", ds, snap(ds)))
+                            before.append(("target document", dt_, snap(dt_)))
+                            tr2 = Transform(dt_)
+                            where = pt + 1 + rng_a.choice([0, nt.content.size])
+                            ops.run_op(tr2, lambda t_: t_.replace(where, where, sl))
+                            ops.run_op(tr2, lambda t_: t_.clear_incompatible(pt, nt.type))
+                            new_objs += [tr2.doc] + tr2.steps[-2:]
+                            ctx.count("aimed:paste-into-mark-restricted")
+                    else:
+                        # a node / fragment built from an array that mixes new text nodes with nodes of a live document:
+                        # an earlier join, a node that does not join, then a shared text node followed by same-markup text
+                        desc.update({"op": "node built from an array mixing new and shared nodes"})
+                        tbs = [(d_, n, p) for (d_, n, p) in allnodes if n.is_textblock and any(c.is_text for c in n.content.content)]
+                        if tbs:
+                            d_, n, p = rng_a.choice(tbs)
+                            shared = rng_a.choice([c for c in n.content.content if c.is_text])
+                            other_marks = [] if shared.marks else ([gen.gen_mark(rng_a, schema)] if schema.marks else None)
+                            arr = [schema.text("n1", shared.marks), schema.text("n2", shared.marks)]
+                            if other_marks is not None and all(n.type.allows_mark_type(m.type) for m in other_marks if m is not None):
+                                arr.append(schema.text("sep", [m for m in other_marks if m is not None]) if other_marks != [] or shared.marks else schema.text("sep", []))
+                            arr += [shared, schema.text("tail", shared.marks), schema.text("tail2", shared.marks)]
+                            before.append(("document sharing a node with the array", d_, snap(d_)))
+                            before.append(("shared text node", shared, snap(shared)))
+                            new_objs.append(outcome(lambda: Fragment.from_array(list(arr)))[1])
+                            r = outcome(lambda: n.type.create(n.attrs, list(arr), n.marks))
+                            if r[0] == "ok":
+                                new_objs.append(r[1])
+                            ctx.count("aimed:array-with-shared-nodes")
                 elif kind == "dom" and info.name not in ("basic", "list"):
                     # style rules, among them one that *clears* a mark (upstream's `font-weight=400` rule of `strong`): the
                     # parser collects marks to add and to remove starting from the shared empty mark set
